@@ -469,6 +469,8 @@ def _is_tlv_amount(a):
                 return False
         elif y[0] == "agg" and y[2] == "None":
             continue
+        elif y[0] == "call" and y[1] == "std::ops::FromResidual::from_residual":
+            continue                      # `get(..)?` in an Option-returning helper: None
         else:
             return False
     return ok
